@@ -1,0 +1,21 @@
+//go:build verif
+
+package encoder
+
+// Contracts for gocv (contract-based deductive verification, /verif).
+
+// ---- what is written can be read back: the decoder's size limits cover what the encoder emits ------
+// The CBOR library's defaults (131072 array elements, 131072 map pairs) are below what a block can
+// hold (a Sierra program, the maps of a state diff). The decoding mode is built with both limits
+// raised - the obligation on the map limit is the one that fails on the code before the fix of
+// defect F14.
+//@ extern func github.com/fxamacker/cbor/v2.CanonicalEncOptions
+//@ extern func github.com/fxamacker/cbor/v2.(EncOptions).EncModeWithTags
+//@ extern func github.com/fxamacker/cbor/v2.(DecOptions).DecModeWithTags
+//@ func initEncAndDecModes
+//@   props C07
+//@   arith int
+//@   nosafe
+//@   modifies *
+//@   callsite DecModeWithTags@*: arrays_as_large_as_written: $0.MaxArrayElements >= 10485760
+//@   callsite DecModeWithTags@*: maps_as_large_as_written: $0.MaxMapPairs >= 10485760
